@@ -1674,7 +1674,7 @@ register("C10", run_C10, ["C10.C10_one_start_one_terminal", "C10.C10_ok_sound"])
 register("C11", run_C11, ["C11.C11_setAction_conflict", "C11.C11_payload"])
 register("C12", run_C12, ["C12.C12_emit"])
 register("C13", run_C13, ["C13.C13_use_sites"])
-register("C14", run_C14, ["C14.C14_ofList_perm"])
+register("C14", run_C14, ["C14.C14_ofList_perm", "C14.C14_table_order_independent"])
 register("C15", run_C15, ["C15.C15_spec", "C15.C15_roundtrip", "C15.C15_fresh"])
 register("C16", run_C16, ["C16.C16_skip_whitespace"])
 register("C17", run_C17, ["C17.C17_empty_table"])
